@@ -24,6 +24,7 @@ Nothing of /repo is executed: the interpretation is over abstract values that ha
 import ast
 
 from .model import is_self_attr, call_name
+from .spec import CLOCKS
 from .paths import Interp, Domain, Env, TOP, NONE, Const, TupleV, Exc, ORD, Opaque
 from .colls import ExactCollections, carry_over, content, Ref
 
@@ -109,7 +110,7 @@ class PoolDomain(ExactCollections, Domain):
                 return [("ok", Opaque("lock"), state)]
             if t == "builtin:float" and not args:
                 return [("ok", Const(0.0), state)]
-            if t in ("time.time", "time.monotonic"):
+            if t in CLOCKS:
                 return [("ok", Const(state.get("#clock", 100)), state)]
             if t == "creator":
                 n = state.get("#ncreated", 0) + 1
